@@ -130,6 +130,39 @@ static std::string decode_bytes(const std::vector<uint8_t> &d, const std::string
 // dec <skip types e.g. 01 or -> <hex>  -> ok <consumed> <geometry> | err | err-version
 VH_OP(dec) { return decode_bytes(vh::unhex(a[2]), a[1]); }
 
+// decseq <skip> <hexA> <hexB>: ONE DecoderBuffer object and ONE Decoder object decode stream A first (result dropped),
+// then the same objects (DecoderBuffer::Init again) decode stream B  -> as `dec <skip> <hexB>`
+VH_OP(decseq) {
+  auto da = vh::unhex(a[2]);
+  auto db = vh::unhex(a[3]);
+  DecoderBuffer b;
+  Decoder dec;
+  for (char c : a[1])
+    if (c >= '0' && c <= '4') dec.SetSkipAttributeTransform(static_cast<GeometryAttribute::Type>(c - '0'));
+  auto run = [&](const std::vector<uint8_t> &d) -> std::string {
+    b.Init(reinterpret_cast<const char *>(d.data()), d.size());
+    auto t = Decoder::GetEncodedGeometryType(&b);
+    if (!t.ok()) return "err";
+    if (t.value() == TRIANGULAR_MESH) {
+      auto r = dec.DecodeMeshFromBuffer(&b);
+      if (!r.ok()) return r.status().code() == Status::UNKNOWN_VERSION ? "err-version" : "err";
+      std::unique_ptr<Mesh> m = std::move(r).value();
+      return "ok " + std::to_string(static_cast<int64_t>(d.size()) - b.remaining_size()) + " " + vh::dump_geometry(m.get(), m.get()) +
+             (m->GetMetadata() ? " meta " + vh::dump_geometry_metadata(*m->GetMetadata()) : std::string());
+    }
+    if (t.value() == POINT_CLOUD) {
+      auto r = dec.DecodePointCloudFromBuffer(&b);
+      if (!r.ok()) return r.status().code() == Status::UNKNOWN_VERSION ? "err-version" : "err";
+      std::unique_ptr<PointCloud> p = std::move(r).value();
+      return "ok " + std::to_string(static_cast<int64_t>(d.size()) - b.remaining_size()) + " " + vh::dump_geometry(p.get(), nullptr) +
+             (p->GetMetadata() ? " meta " + vh::dump_geometry_metadata(*p->GetMetadata()) : std::string());
+    }
+    return "err";
+  };
+  (void)run(da);
+  return run(db);
+}
+
 // encdec <enc args…>: encode, then decode the produced bytes followed by optional trailing bytes
 //   (token trail=<hex>), normally and (token skip=<types>) with attribute transforms skipped:
 //   -> ok <hex> <nep> <nef> | <dec result> | <dec result with all transforms skipped> | <dec result with skip=<types>, or ->
